@@ -325,8 +325,25 @@ func kindProgram(c *Ctx, k kindInfo, nrand int) (string, []probe) {
 	fmt.Fprintf(&b, "\tvar x, y %s\n\tvar s uint\n\tvar si int\n\t_, _, _, _ = x, y, s, si\n", k.name)
 	vals := k.values(c, nrand)
 	// pairs: every value with a rotating partner plus boundary x boundary
+	// the extreme values meet each other in every combination
+	var ext []int
+	for i, v := range vals {
+		for _, e := range []*big.Int{k.min(), new(big.Int).Add(k.min(), big.NewInt(1)), big.NewInt(-1), big.NewInt(0), big.NewInt(1), big.NewInt(2), new(big.Int).Sub(k.max(), big.NewInt(1)), k.max()} {
+			if v.Cmp(e) == 0 {
+				ext = append(ext, i)
+			}
+		}
+	}
+	isExt := map[int]bool{}
+	for _, i := range ext {
+		isExt[i] = true
+	}
 	for i, x := range vals {
-		for _, j := range []int{i, (i + 1) % len(vals), (i*7 + 3) % len(vals), len(vals) - 1 - i} {
+		partners := []int{i, (i + 1) % len(vals), (i*7 + 3) % len(vals), len(vals) - 1 - i}
+		if isExt[i] {
+			partners = append(partners, ext...)
+		}
+		for _, j := range partners {
 			y := vals[j]
 			fmt.Fprintf(&b, "\tx, y = %s, %s\n", x, y)
 			wide := "uint64"
@@ -356,6 +373,15 @@ func kindProgram(c *Ctx, k kindInfo, nrand int) (string, []probe) {
 				fmt.Fprintf(&b, "\tt.P(x / y)\n\tt.P(x %% y)\n")
 				ps = append(ps, probe{[]string{"binop", "Quo", code, x.String(), y.String()}, gcBinK(k, "Quo", x, y), fmt.Sprintf("%s(%s) / %s", k.name, x, y), ""})
 				ps = append(ps, probe{[]string{"binop", "Rem", code, x.String(), y.String()}, gcBinK(k, "Rem", x, y), fmt.Sprintf("%s(%s) %% %s", k.name, x, y), ""})
+				for _, op := range []struct{ name, sym string }{{"Quo", "/"}, {"Rem", "%"}} {
+					r, _ := new(big.Int).SetString(gcBinK(k, op.name, x, y), 10)
+					e := fmt.Sprintf("%s(x %s y)", wide, op.sym)
+					fmt.Fprintf(&b, "\tt.P(%s)\n\tt.P((x %s y) == x)\n", e, op.sym)
+					prog := fmt.Sprintf("package main\nimport \"t\"\nfunc main() {\n\tvar x, y %s = %s, %s\n\tt.P(%s)\n}\n", k.name, x, y, e)
+					ps = append(ps, probe{nil, r.String(), fmt.Sprintf("%s(%s(%s) %s %s)", wide, k.name, x, op.sym, y), prog})
+					prog2 := fmt.Sprintf("package main\nimport \"t\"\nfunc main() {\n\tvar x, y %s = %s, %s\n\tt.P((x %s y) == x)\n}\n", k.name, x, y, op.sym)
+					ps = append(ps, probe{nil, fmt.Sprint(r.Cmp(x) == 0), fmt.Sprintf("(%s(%s) %s %s) == x", k.name, x, op.sym, y), prog2})
+				}
 			}
 		}
 		// unary minus
